@@ -429,8 +429,32 @@ fn gen_scenarios(seed: u64, n: usize, tier: &str, prefix: &str) -> Vec<(String, 
         return out;
     }
     let mut rng = Rng::new(seed);
+    // the egress scenarios are a small part of the product: give them one case in six
+    let mut tx_ranges: Vec<(usize, usize)> = vec![];
+    let mut off = 0;
+    for seg in segments() {
+        let sz: usize = seg.dims.iter().product();
+        if seg.tx {
+            tx_ranges.push((off, sz));
+        }
+        off += sz;
+    }
+    let tx_total: usize = tx_ranges.iter().map(|r| r.1).sum();
     for j in 0..n {
-        let i = rng.below(total as u64) as usize;
+        let i = if rng.chance(1, 6) {
+            let mut k = rng.below(tx_total as u64) as usize;
+            let mut idx = 0;
+            for (o, sz) in &tx_ranges {
+                if k < *sz {
+                    idx = o + k;
+                    break;
+                }
+                k -= sz;
+            }
+            idx
+        } else {
+            rng.below(total as u64) as usize
+        };
         let mut s = scenario_at(i);
         if let Event::Rx(rx) = &mut s.ev {
             match &mut rx.upper {
